@@ -22,11 +22,11 @@ fn doubles_back(v: &[Point2], closed: bool, l: f64, ls: &[f64]) -> bool {
     false
 }
 
-fn check_curve2(r: &mut Report, pts: &[Point2], force_closed: bool) {
-    let tol = 1e-6;
+fn check_curve2(r: &mut Report, pts: &[Point2], force_closed: bool) { check_curve2_tol(r, pts, force_closed, 1e-6) }
+fn check_curve2_tol(r: &mut Report, pts: &[Point2], force_closed: bool, tol: f64) {
     let c = match Curve2::from_points(pts, tol, force_closed) { Ok(c) => c, Err(_) => return };
     r.case();
-    let desc = || format!("Curve2::from_points({:?}, tol=1e-6, force_closed={})", pts.iter().map(|p| (p.x, p.y)).collect::<Vec<_>>(), force_closed);
+    let desc = || format!("Curve2::from_points({:?}, tol={:?}, force_closed={})", pts.iter().map(|p| (p.x, p.y)).collect::<Vec<_>>(), tol, force_closed);
     let v = c.points().to_vec();
     let n = v.len();
     let ls = c.lengths().clone();
@@ -46,6 +46,8 @@ fn check_curve2(r: &mut Report, pts: &[Point2], force_closed: bool) {
     let total = c.length();
     let mut probes: Vec<f64> = vec![0.0, total];
     for i in 0..n - 1 { for f in [0.0, 0.25, 0.5, 1.0] { probes.push(ls[i] + (ls[i + 1] - ls[i]) * f); } }
+    // just off a stored vertex length (well inside the curve tolerance, and one ulp either side): still an edge station
+    for i in 0..n { for d in [tol * 0.25, -tol * 0.25, ls[i] * f64::EPSILON, -ls[i] * f64::EPSILON] { let l = ls[i] + d; if l > 0.0 && l < total { probes.push(l); } } }
     for &l in probes.iter() {
         let d2 = || format!("{} at_length({:?})", desc(), l);
         match c.at_length(l) {
@@ -54,6 +56,13 @@ fn check_curve2(r: &mut Report, pts: &[Point2], force_closed: bool) {
                 r.check(s.index() + 1 < n, "edge index in range", d2);
                 r.check(s.fraction() >= 0.0 && s.fraction() <= 1.0, "fraction in [0,1]", d2);
                 r.check(close(s.length_along(), l), "length_along == l", d2);
+                if !ls.iter().any(|x| *x == l) && s.index() + 1 < n {
+                    // not a stored vertex length: the station lies strictly inside the edge that contains l
+                    r.check(ls[s.index()] < l && l < ls[s.index() + 1], "a length that is not a stored vertex length lies strictly inside its edge", d2);
+                    r.check((s.length_along() - l).abs() <= 4.0 * f64::EPSILON * (1.0 + l.abs()), "length_along == l to rounding (no snapping to a nearby vertex)", d2);
+                    let e = unit2(&v[s.index()], &v[s.index() + 1]);
+                    r.check(close(s.direction().x, e.0) && close(s.direction().y, e.1), "direction parallel to the edge the station lies on", d2);
+                }
                 if s.index() + 1 < n {
                     let p = lerp2(&v[s.index()], &v[s.index() + 1], s.fraction());
                     r.check(close(p.x, s.point().x) && close(p.y, s.point().y), "index+fraction reproduce the point", d2);
@@ -97,11 +106,11 @@ fn check_curve2(r: &mut Report, pts: &[Point2], force_closed: bool) {
     }
 }
 
-fn check_curve3(r: &mut Report, pts: &[Point3]) {
-    let tol = 1e-6;
+fn check_curve3(r: &mut Report, pts: &[Point3]) { check_curve3_tol(r, pts, 1e-6) }
+fn check_curve3_tol(r: &mut Report, pts: &[Point3], tol: f64) {
     let c = match Curve3::from_points(pts, tol) { Ok(c) => c, Err(_) => return };
     r.case();
-    let desc = || format!("Curve3::from_points({:?}, tol=1e-6)", pts.iter().map(|p| (p.x, p.y, p.z)).collect::<Vec<_>>());
+    let desc = || format!("Curve3::from_points({:?}, tol={:?})", pts.iter().map(|p| (p.x, p.y, p.z)).collect::<Vec<_>>(), tol);
     let v = c.points().to_vec();
     let n = v.len();
     let ls = c.lengths().to_vec();
@@ -127,22 +136,36 @@ fn check_curve3(r: &mut Report, pts: &[Point3]) {
             r.check(close(s.direction().x, dn.x) && close(s.direction().y, dn.y) && close(s.direction().z, dn.z), "vertex direction parallel to its edge", d3);
         } else { r.check(false, "stored vertex length yields a station", d3); }
     }
-    for i in 0..n - 1 { for f in [0.25, 0.5] {
-        let l = ls[i] + (ls[i + 1] - ls[i]) * f;
+    let mut probes3: Vec<f64> = vec![];
+    for i in 0..n - 1 { for f in [0.25, 0.5] { probes3.push(ls[i] + (ls[i + 1] - ls[i]) * f); } }
+    for i in 0..n { for d in [tol * 0.25, -tol * 0.25, ls[i] * f64::EPSILON, -ls[i] * f64::EPSILON] { let l = ls[i] + d; if l > 0.0 && l < total && !ls.iter().any(|x| *x == l) { probes3.push(l); } } }
+    for &l in probes3.iter() {
         let d2 = || format!("{} at_length({:?})", desc(), l);
         if let Some(s) = c.at_length(l) {
             r.check(close(s.length_along(), l), "length_along == l", d2);
+            if s.index() + 1 < n {
+                r.check(ls[s.index()] < l && l < ls[s.index() + 1], "a length that is not a stored vertex length lies strictly inside its edge", d2);
+                r.check((s.length_along() - l).abs() <= 4.0 * f64::EPSILON * (1.0 + l.abs()), "length_along == l to rounding (no snapping to a nearby vertex)", d2);
+                let dv = v[s.index() + 1] - v[s.index()];
+                let dn = dv / dv.norm();
+                r.check(close(s.direction().x, dn.x) && close(s.direction().y, dn.y) && close(s.direction().z, dn.z), "direction parallel to the edge the station lies on", d2);
+            }
             if s.index() + 1 < n {
                 let p = lerp3(&v[s.index()], &v[s.index() + 1], s.fraction());
                 r.check(close(p.x, s.point().x) && close(p.y, s.point().y) && close(p.z, s.point().z), "index+fraction reproduce the point", d2);
             }
         } else { r.check(false, "a length inside [0, L] yields a station", d2); }
-    } }
+    }
     for l in [-1e-9, total + 1e-9, -1.0, total + 1.0] {
         r.check(c.at_length(l).is_none(), "a length outside [0, L] yields no station", || format!("{} at_length({:?})", desc(), l));
     }
     let mut k = 0;
-    for st in c.iter() { r.check(st.point() == v[k], "iterated station k is vertex k", desc); k += 1; }
+    for st in c.iter() {
+        r.check(st.point() == v[k], "iterated station k is vertex k", desc);
+        let dn = (st.direction().x.powi(2) + st.direction().y.powi(2) + st.direction().z.powi(2)).sqrt();
+        r.check(close(dn, 1.0), "unit direction (3D vertex station)", desc);
+        k += 1;
+    }
     r.check(k == n, "iteration yields one station per vertex", desc);
 }
 
@@ -165,9 +188,16 @@ pub fn run() -> Report {
     check_curve2(&mut r, &nd, false); check_curve2(&mut r, &nd, true);
     let eq = vec![Point2::new(0.0, 0.0), Point2::new(2.0, 0.0), Point2::new(2.0, 2.0), Point2::new(0.0, 1e-6)];
     check_curve2(&mut r, &eq, false);
+    // tolerance exactly 0 with exactly repeated points; a coarse tolerance
+    let dup2 = vec![Point2::new(0.0, 0.0), Point2::new(1.0, 0.0), Point2::new(1.0, 0.0), Point2::new(1.0, 2.0), Point2::new(1.0, 2.0)];
+    check_curve2_tol(&mut r, &dup2, false, 0.0); check_curve2_tol(&mut r, &dup2, true, 0.0);
+    check_curve2_tol(&mut r, &grid[..5].to_vec(), false, 0.25); check_curve2_tol(&mut r, &[grid[0], grid[1], grid[4], grid[3]], true, 0.25);
     let g3: Vec<Point3> = (0..8).map(|k| Point3::new((k % 2) as f64, ((k / 2) % 2) as f64, (k / 4) as f64)).collect();
     for a in 0..8 { for b in 0..8 { check_curve3(&mut r, &[g3[a], g3[b]]); for c in 0..8 { check_curve3(&mut r, &[g3[a], g3[b], g3[c]]); } } }
     let nd3 = vec![Point3::new(0.0, 0.0, 0.0), Point3::new(1.0, 0.0, 0.0), Point3::new(1.0 + 1e-7, 0.0, 0.0), Point3::new(1.0, 2.0, 0.0), Point3::new(1.0, 2.0, 1e-7), Point3::new(1.0, 2.0, 2.0)];
     check_curve3(&mut r, &nd3);
+    let dup3 = vec![Point3::new(0.0, 0.0, 0.0), Point3::new(1.0, 0.0, 0.0), Point3::new(1.0, 0.0, 0.0), Point3::new(1.0, 2.0, 0.0), Point3::new(1.0, 2.0, 0.0), Point3::new(1.0, 2.0, 2.0)];
+    check_curve3_tol(&mut r, &dup3, 0.0);
+    check_curve3_tol(&mut r, &[g3[0], g3[1], g3[3], g3[7]], 0.25);
     r
 }
